@@ -197,7 +197,7 @@ func lokiEntryMember(r *rand.Rand, es []LEntry) member {
 			key = `"timestamp"`
 		}
 		var tsv string
-		if e.Ts < 0 || r.Intn(2) == 0 {
+		if r.Intn(2) == 0 { // negative nanoseconds are written as integers too (rejected before fix e276684)
 			tsv = `"` + rfc3339(e.Ts) + `"`
 		} else {
 			tsv = `"` + strconv.FormatInt(e.Ts, 10) + `"`
